@@ -14,9 +14,10 @@ from ..core import bytesnf as B
 from .common import SCHEME_VARIANTS, with_mappers
 
 
-def switch_roots(P, f, adts=None):
+def switch_roots(P, f, adts=None, computed=False):
     """[(root(param name, path), adt name)] of switches on scheme-tagged enums in f, plus the roots handed to local
-    mapper functions that do the dispatch."""
+    mapper functions that do the dispatch.  With computed=True switches on computed values (a decoded tag) are
+    included as roots ("@", term)."""
     adts = adts or P.scheme_adts()
     ev = evaluate(f)
     out = []
@@ -24,6 +25,8 @@ def switch_roots(P, f, adts=None):
         v = G.variant_of_switch(P, f, b, 0)
         if v and v[0] in adts and d is not None and d.op == "discr":
             r = place_root(strip_sites(d).a[0])
+            if r is None and computed:
+                r = ("@", strip_sites(d).a[0])
             if r and (r, v[0]) not in out:
                 out.append((r, v[0]))
     for g in with_mappers(P, [f]):
@@ -44,9 +47,9 @@ def switch_roots(P, f, adts=None):
     return out
 
 
-def assumptions(P, f, adts=None):
+def assumptions(P, f, adts=None, computed=False):
     """All assignments of variants to the scheme roots of f: list of dicts root -> variant."""
-    roots = switch_roots(P, f, adts)
+    roots = switch_roots(P, f, adts, computed)
     if not roots:
         return [{}]
     names = []
@@ -175,4 +178,24 @@ def check_variant_preserved(ctx, rule, P, f, out_adt, min_variants=3):
         n += 1 if built == [V] else 0
         ctx.ob(rule, "%s@%s" % (f.key, V), built in ([V], []), "with %s the result is built as %s::%s (want exactly %s)" % (", ".join("%s%s=%s" % (a, b, v) for (a, b), v in sorted(assume.items())), out_adt, "/".join(built) if built else "<none: refused>", V), where=where(f))
     ctx.floor(rule, "input variants of %s that yield a result of their own variant" % f.key, n, min_variants)
+    return n
+
+
+
+def check_reader_totality(ctx, rule, P, f, self_adt, tag_adts):
+    """A byte reader of a tagged enum accepts every tag its writer can emit: for every variant V of the tag enum the
+    reader, assuming the decoded tag is V, has a success path and builds exactly Self::V on it (a reader that refuses or
+    re-labels one variant breaks the round trip for that variant only)."""
+    from .common import where
+
+    n = 0
+    for assume in assumptions(P, f, tag_adts, computed=True):
+        V = variant_of(assume)
+        if not assume or V is None:
+            continue
+        ev = evaluate(f, assume)
+        r = strip_sites(spec_inline(P, ev, ev.ret, 2))
+        built = sorted({t.a[0][2] for t in subterms(r) if t.op == "agg" and t.a[0][0] == "adt" and t.a[0][1] == self_adt})
+        n += 1
+        ctx.ob(rule, "%s@%s" % (f.key, V), built == [V], "assuming the decoded tag is %s the reader builds %s::%s (want exactly %s::%s on its success path)" % (V, self_adt, "/".join(built) if built else "<nothing: this tag is refused>", self_adt, V), where=where(f))
     return n
